@@ -651,8 +651,10 @@ def check_C14(ctx):
         ops += [[3], [32]]
         plain = Case([world_hdr(E, wW=wW, wcount=0, wbackend=0), []] + [o for o in ops if o[0] != 32], "count-writer/plain")
         wrapped = Case([world_hdr(E, wW=wW, wcount=1, wbackend=0), []] + ops, "count-writer/wrapped")
-        cases += [plain, wrapped]
+        traced = Case([world_hdr(E, wW=wW, wcount=2, wbackend=0), []] + [o for o in ops if o[0] != 32], "dbg-writer/wrapped")
+        cases += [plain, wrapped, traced]
         pairs.append((plain, wrapped))
+        pairs.append((plain, traced))
 
     def oracle_w(c, r):
         if c.groups[0][6] != 1:
@@ -686,6 +688,8 @@ def check_C14(ctx):
         ops = [[10, k] for k in it["prefix"]] + [[33], [17], [15, it["cid"], it["p"], it["rfl"]], [33], [17], [15, 3, 0, 0] if False else [15, 1, 0, 1 if it["rW"] != 8 else 0], [33], [17],
                                                   [13, 5], [14, 2], [33], [17], [12, 7], [33], [17]]
         rcases.append(Case([world_hdr(it["E"], rW=it["rW"], rcount=1), list(data) + [0xA5] * 16] + ops, "count-reader/code%d" % it["cid"]))
+        rcases.append(Case([world_hdr(it["E"], rW=it["rW"], rcount=2), list(data) + [0xA5] * 16] + [o for o in ops if o[0] not in (33, 17)],
+                           "dbg-reader/code%d" % it["cid"]))
 
     def oracle_r(c, r):
         ops = c.groups[2:]
@@ -964,6 +968,26 @@ def check_C18(ctx):
                 ops.append([0, var, v, 1])
     cases = [Case([[4], []] + ops[i:i + 300], "vbyte-encode", levels=(2,)) for i in range(0, len(ops), 300)]
     rust = ctx.corr(cases, what="C18 encode")
+    # the length function matches the encoded length (steps at 2^7, 2^7+2^14, ...)
+    lops = [[4 + var, 0, 0, v] for v in vals for var in (0, 1)]
+    lcases = [Case([[2], []] + lops[i:i + 500], "vbyte-len", levels=(2,)) for i in range(0, len(lops), 500)]
+    lres = ctx.corr(lcases, what="C18 length function")
+    enc_len = {}
+    for c, r in zip(cases, rust or []):
+        for op, g in zip(c.groups[2:], r):
+            if g and g[0] == 0:
+                enc_len[(op[1], op[2])] = len(g) - 1
+    for c, r in zip(lcases, lres or []):
+        bad = None
+        for op, g in zip(c.groups[2:], r):
+            k = (op[0] - 4, op[3])
+            if g and g[0] == 0 and k in enc_len and g[1] != 8 * enc_len[k]:
+                bad = (op[3], g[1], enc_len[k])
+                break
+        if bad:
+            ctx.v.violation("bit_len_vbyte(%d) = %d but the encoders write %d bytes" % bad,
+                            {"kind": "disagreement", "class_key": "vbyte-len", "case": "2;;4 0 0 %x" % bad[0], "levels": [2]}, True)
+            break
     # decode what was encoded; completeness on all short terminated strings
     dops = []
     dmeta = []
@@ -1184,10 +1208,22 @@ def check_C15(ctx):
         nt = rng.randrange(2, 9)
         tcases.append(Case([[11, nt], []] + [[0, v] for v in vals], "stats-threads/%d" % nt, levels=()))
         mcases.append(Case([[9], []] + [[0, v] for v in vals] + [[4]], "stats-threads-seq", levels=()))
+    # long contended runs: a lost update needs two threads inside the wrapper at the same time
+    for _ in range(4 if ctx.tier == "quick" else 20):
+        vals = [rng.randrange(64) for _ in range(40000)]
+        tcases.append(Case([[11, 8], []] + [[0, v] for v in vals], "stats-threads-contended/8", levels=()))
+        mcases.append(Case([[9], []] + [[0, v] for v in vals] + [[4]], "stats-threads-seq-impl", levels=()))
     binary = ctx.harness("release", ())
     if binary:
         tr = core.run_rust(binary, tcases)
-        mr = core.run_model(ctx.driver, mcases, 2)
+        # short runs: sequential MODEL; long contended runs: the implementation's own sequential run
+        small = [i for i, c in enumerate(mcases) if c.tag == "stats-threads-seq"]
+        big = [i for i, c in enumerate(mcases) if c.tag != "stats-threads-seq"]
+        mr = [None] * len(mcases)
+        for i, r in zip(small, core.run_model(ctx.driver, [mcases[i] for i in small], 2)):
+            mr[i] = r
+        for i, r in zip(big, core.run_rust(binary, [mcases[i] for i in big])):
+            mr[i] = r
         ctx.v.cov["evaluations"] += len(tcases)
         ctx.v.count(tcases)
         for c, a, b in zip(tcases, tr, mr):
